@@ -34,23 +34,37 @@ ASSUMPTIONS = [
     "theorems about results assume the resolved wiring is acyclic (a rank function exists) and the recursion bound exceeds the depth of the graph",
     "values are ints or non-int objects; parameter annotations are int, int | None, Lazy[int], Lazy[int | None], an unconstrained TypeVar, or absent",
 ]
-RULE = ("structured generator: 1-4 inputs (int / int|None / untyped; supplied, absent or ill-typed per run), 0-3 literals, 1-10 components of arity 0-4 "
-        "declared in random order and wired by connect() to earlier or later-declared nodes, aliases, default connections, lazy parameters, "
-        "use_first_of chains, bodies that force lazies conditionally, return None / a non-int / raise; 2-4 runs per pipeline object with 1-3 requested "
-        "nodes (or all); every 4th base graph is repeated with a raising component at each position in turn; every 8th case is malformed (cycle via "
-        "connect or via a default connection, or a cycle injected into a built pipeline). non-trivial = at least 3 components executed in some run, a "
-        "node consumed by two executed consumers or requested twice, and at least one of: lazy input forced, fallback taken, component skipped, error; "
-        "distinct = by hash of the case")
+RULE = ("structured generator: 1-4 inputs (int / int|None / untyped; supplied, absent or ill-typed per run; untyped ones also carry strs and float64 / "
+        "int64 arrays), 0-3 literals, 1-10 components of arity 0-4 declared in random order and wired by connect() to earlier or later-declared nodes, "
+        "aliases, default connections, lazy parameters, use_first_of chains, parameters annotated int / int|None / Lazy[..] / TypeVar / none and (every "
+        "4th graph) np.ndarray[Any, np.dtype[float64|int64]] fed with arrays of matching and non-matching dtype in either order within the one process, "
+        "bodies that force lazies conditionally, return None / a non-int / an array, or raise one of 8 exception classes (custom, KeyError and a subclass, "
+        "IndexError, LookupError, PipelineError, TypeError, ValueError); 2-5 runs per pipeline object with 0-3 requested nodes; every other graph is a "
+        "builder HISTORY: the same PipelineBuilder is edited (default connections changed or added, connect, alias; optionally config_hash()/"
+        "build_config() first) and built again 1-3 more times, every built pipeline compared with the model of the builder state at that moment; every "
+        "4th base graph is repeated with a raising component at each position in turn; every 8th case is malformed (cycle via connect, via a default "
+        "connection, or injected into a built pipeline). non-trivial = in some build, at least 3 components executed in a run, a node consumed by two "
+        "executed consumers or requested twice, and at least one of: lazy input forced, fallback taken, component skipped, error; distinct = by hash of the case")
 
 PNAMES = "abcde"
-ANNS = {  # annotation -> (lazy, typed, nullable, python text)
-    "int": (False, True, False, "int"),
-    "opt": (False, True, True, "int | None"),
-    "any": (False, False, True, None),
-    "lazy": (True, True, False, "Lazy[int]"),
-    "lazyopt": (True, True, True, "Lazy[int | None]"),
-    "lazyany": (True, False, True, "Lazy[_T]"),
+ANNS = {  # annotation -> (lazy, typed, nullable, python text, kind)
+    "int": (False, True, False, "int", "TInt"),
+    "opt": (False, True, True, "int | None", "TInt"),
+    "any": (False, False, True, None, "TInt"),
+    "lazy": (True, True, False, "Lazy[int]", "TInt"),
+    "lazyopt": (True, True, True, "Lazy[int | None]", "TInt"),
+    "lazyany": (True, False, True, "Lazy[_T]", "TInt"),
+    # dtype-parameterised arrays: the verdict depends on the value's dtype, not on its class
+    "fvec": (False, True, False, "_FV", "TFloatVec"),
+    "fvecopt": (False, True, True, "_FV | None", "TFloatVec"),
+    "ivec": (False, True, False, "_IV", "TIntVec"),
+    "lazyfvec": (True, True, False, "Lazy[_FV]", "TFloatVec"),
+    "lazyivec": (True, True, False, "Lazy[_IV]", "TIntVec"),
 }
+VEC_ANNS = [("fvec", 4), ("fvecopt", 2), ("ivec", 3), ("lazyfvec", 2), ("lazyivec", 1)]
+KIND_TAG = {"TInt": "i", "TFloatVec": "f", "TIntVec": "a"}
+# classes of the exceptions component bodies raise (chosen by the exception number)
+N_EXC = 8
 
 
 def translate():
@@ -73,6 +87,13 @@ def gen_val(rng, bad_odds=0):
     return ["i", rng.randint(0, 20)]
 
 
+def gen_anyval(rng, arrays):
+    """value for an untyped input"""
+    if arrays and rng.chance(2, 3):
+        return [rng.choice(["f", "a"]), rng.randint(0, 9)]
+    return [rng.weighted([("i", 6), ("s", 1), ("f", 1), ("a", 1)]), rng.randint(0, 9)]
+
+
 def gen_body(rng, params, kind):
     """params: list of annotations.  Returns a bprog in JSON form."""
     eager = [i for i, p in enumerate(params) if not ANNS[p["ann"]][0]]
@@ -85,6 +106,10 @@ def gen_body(rng, params, kind):
             return ["ret", ["none"]]
         if kind == "str" or r == 1:
             return ["ret", ["str", rng.randint(0, 9)]]
+        if kind in ("arrf", "arri"):
+            return ["ret", [kind, rng.randint(0, 9)]]
+        if r == 3:
+            return ["raise", rng.randint(0, 79)]
         if r == 2 and (eager or forced):
             a = ["arg", rng.choice(eager)] if eager and (not forced or rng.chance(1, 2)) else ["forced", rng.choice(forced)]
             return ["ret", ["atom", a]]
@@ -115,12 +140,13 @@ def gen_body(rng, params, kind):
 
 
 def gen_graph(rng, malformed):
+    arrays = rng.chance(1, 4)
     n_in = rng.randint(1, 4)
     n_lit = rng.weighted([(0, 3), (1, 3), (2, 2), (3, 1)])
     n_comp = rng.weighted([(1, 1), (2, 2), (3, 3), (4, 3), (5, 3), (6, 2), (8, 2), (10, 1)])
     nodes = []          # in hidden topological order
     for _ in range(n_in):
-        t = rng.weighted([("int", 4), ("opt", 4), ("any", 1)])
+        t = rng.weighted([("int", 4), ("opt", 4), ("any", 4 if arrays else 1)])
         nodes.append({"kind": "input", "typed": t != "any", "nullable": t != "int"})
     for _ in range(n_lit):
         nodes.append({"kind": "literal", "val": gen_val(rng, 1)})
@@ -135,13 +161,16 @@ def gen_graph(rng, malformed):
         names = rng.sample(list(range(len(PNAMES))), arity)
         params = []
         for pn in names:
-            ann = rng.weighted([("int", 6), ("opt", 5), ("any", 2), ("lazy", 3), ("lazyopt", 2), ("lazyany", 1)])
+            if arrays and rng.chance(1, 2):
+                ann = rng.weighted(VEC_ANNS)
+            else:
+                ann = rng.weighted([("int", 6), ("opt", 5), ("any", 2), ("lazy", 3), ("lazyopt", 2), ("lazyany", 1)])
             conn = rng.below(here) if rng.chance(5, 6) else None
             # bias towards sharing: re-use a recent component
             if conn is not None and here > base and rng.chance(1, 2):
                 conn = rng.randint(max(base, here - 4), here - 1)
             params.append({"name": pn, "conn": conn, "ann": ann})
-        kind = rng.weighted([("lin", 12), ("none", 1), ("str", 1)])
+        kind = rng.weighted([("lin", 12), ("none", 1), ("str", 1), ("arrf", 6 if arrays else 0), ("arri", 5 if arrays else 0)])
         nodes.append({"kind": "comp", "params": params, "body": gen_body(rng, params, kind)})
     n = len(nodes)
     # default connections
@@ -200,7 +229,8 @@ def gen_graph(rng, malformed):
     for k in range(rng.weighted([(0, 2), (1, 2), (2, 1)])):
         aliases.append([100 + k, rng.below(n)])
     return {"nodes": out, "defaults": [[pn, ident[t]] for pn, t in defaults], "aliases": aliases,
-            "inject": [[ident[j], pn, ident[t]] for j, pn, t in inject], "depth_order": [ident[h] for h in range(n)]}
+            "inject": [[ident[j], pn, ident[t]] for j, pn, t in inject], "depth_order": [ident[h] for h in range(n)],
+            "arrays": arrays}
 
 
 def gen_runs(rng, g):
@@ -218,7 +248,9 @@ def gen_runs(rng, g):
                 w = "ok"
             else:
                 w = rng.weighted([("ok", 6), ("absent", 3), ("bad", 1 if mode != "bad" else 4)])
-            if w == "ok":
+            if w == "ok" and not nd["typed"]:
+                inputs.append([nd["id"], gen_anyval(rng, g.get("arrays"))])
+            elif w == "ok":
                 inputs.append([nd["id"], ["i", rng.randint(0, 20)]])
             elif w == "bad":
                 inputs.append([nd["id"], ["s", rng.randint(0, 9)]])
@@ -228,8 +260,58 @@ def gen_runs(rng, g):
             req.append(rng.choice(deep) if comps and rng.chance(1, 2) else rng.choice(comps) if comps and rng.chance(1, 2) else rng.choice(names))
         runs.append({"inputs": inputs, "req": req})
     # a run that should succeed after whatever failed before it
-    runs.append({"inputs": [[nd["id"], ["i", rng.randint(0, 20)]] for nd in ins], "req": [rng.choice(deep)] if comps else [names[0]]})
+    runs.append({"inputs": [[nd["id"], (["i", rng.randint(0, 20)] if nd["typed"] or not g.get("arrays") else gen_anyval(rng, True))] for nd in ins],
+                 "req": [rng.choice(deep)] if comps else [names[0]]})
     return runs
+
+
+def apply_edits(state, edits):
+    """The builder state (nodes, defaults, aliases) after a list of edits -- plain data, independent of Coq."""
+    st = {**state, "nodes": copy.deepcopy(state["nodes"]), "defaults": [list(d) for d in state["defaults"]],
+          "aliases": [list(a) for a in state["aliases"]]}
+    for e in edits:
+        if e[0] == "default":
+            st["defaults"] = [[e[1], e[2]]] + [d for d in st["defaults"] if d[0] != e[1]]
+        elif e[0] == "connect":
+            for p in st["nodes"][e[1]]["params"]:
+                if p["name"] == e[2]:
+                    p["conn"] = e[3]
+        else:
+            st["aliases"] = [[e[1], e[2]]] + st["aliases"]
+    return st
+
+
+def gen_stages(rng, g, malformed):
+    """Further builds of the same builder: edits (default connections changed or added, connections, aliases), then runs."""
+    stages = []
+    state = g
+    rank = {i: h for h, i in enumerate(g["depth_order"])}
+    for k in range(rng.weighted([(1, 3), (2, 2), (3, 1)])):
+        comps = [nd for nd in state["nodes"] if nd["kind"] == "comp" and nd["params"]]
+        leaves = [nd["id"] for nd in state["nodes"] if nd["kind"] in ("input", "literal")]
+        edits = []
+        for _ in range(rng.randint(1, 3)):
+            what = rng.weighted([("default", 5), ("connect", 2), ("alias", 1)])
+            if what == "default":
+                used = [d[0] for d in state["defaults"]]
+                unwired = [p["name"] for nd in comps for p in nd["params"] if p["conn"] is None]
+                pool = (used * 2 + unwired) or list(range(len(PNAMES)))
+                pn = rng.choice(pool)
+                tgt = rng.choice(leaves) if not (malformed and rng.chance(1, 3)) else rng.choice([nd["id"] for nd in state["nodes"]])
+                edits.append(["default", pn, tgt])
+            elif what == "connect" and comps:
+                nd = rng.choice(comps)
+                p = rng.choice(nd["params"])
+                lower = [i for i in rank if rank[i] < rank[nd["id"]]]
+                if lower:
+                    edits.append(["connect", nd["id"], p["name"], rng.choice(lower)])
+            elif what == "alias":
+                a = 100 + len(state["aliases"]) + sum(1 for e in edits if e[0] == "alias")
+                edits.append(["alias", a, rng.choice([nd["id"] for nd in state["nodes"]])])
+        state = apply_edits(state, edits)
+        pre = rng.weighted([(None, 3), ("hash", 1), ("config", 1)])
+        stages.append({"edits": edits, "pre": pre, "runs": gen_runs(rng, state)[-2:]})
+    return stages
 
 
 def gen_cases(rng, tier):
@@ -240,6 +322,9 @@ def gen_cases(rng, tier):
         malformed = k % 8 == 7
         g = gen_graph(r, malformed)
         case = {**g, "runs": gen_runs(r, g), "style": "malformed" if malformed else "valid"}
+        if not g["inject"] and k % 2 == 1:
+            case["stages"] = gen_stages(r.fork("stages"), g, malformed)
+            case["style"] += "+rebuilt"
         out.append(case)
         if k % 4 == 0 and not malformed:
             comps = [nd["id"] for nd in g["nodes"] if nd["kind"] == "comp"]
@@ -276,11 +361,26 @@ def _setup():
             super().__init__(k)
             self.k = k
 
+    class UnknownKey(KeyError):
+        pass
+
+    global EXC_CLASSES
+    # what components raise: a custom class, failed lookups (and a subclass), the library's own error
+    # classes, and common built-ins -- whatever the class, the object must reach the caller unchanged
+    EXC_CLASSES = [CompError, KeyError, IndexError, UnknownKey, PipelineError, TypeError, LookupError, ValueError]
+    assert len(EXC_CLASSES) == N_EXC
     _ready = True
 
 
 def pyval(v):
-    return None if v is None else (v[1] if v[0] == "i" else f"s{v[1]}")
+    if v is None:
+        return None
+    if v[0] == "i":
+        return v[1]
+    if v[0] == "s":
+        return f"s{v[1]}"
+    import numpy as np
+    return np.array([v[1]], dtype=np.float64 if v[0] == "f" else np.int64)
 
 
 def jval(x):
@@ -292,6 +392,11 @@ def jval(x):
         return ["i", x]
     if isinstance(x, str) and x.startswith("s"):
         return ["s", int(x[1:])]
+    if type(x).__name__ == "ndarray" and x.shape == (1,):
+        if str(x.dtype) == "float64":
+            return ["f", int(x[0])]
+        if str(x.dtype) == "int64":
+            return ["a", int(x[0])]
     raise TypeError(f"unexpected value {x!r}")
 
 
@@ -300,7 +405,9 @@ def num(x):
         return -1
     if isinstance(x, int):
         return x
-    return 1000003 + int(x[1:])
+    if isinstance(x, str):
+        return 1000003 + int(x[1:])
+    return (2000003 if str(x.dtype) == "float64" else 3000003) + int(x[0])
 
 
 class Interp:
@@ -324,14 +431,16 @@ class Interp:
                 return f"s{e[1]}"
             if e[0] == "atom":
                 return atom(e[1])
+            if e[0] in ("arrf", "arri"):
+                return pyval(["f" if e[0] == "arrf" else "a", e[1]])
             return e[1] + sum(c * num(atom(a)) for c, a in e[2])
         b = body
         while True:
             if b[0] == "ret":
                 return ev(b[1])
             if b[0] == "raise":
-                e = CompError(b[1])
-                self.raised.append(e)
+                e = EXC_CLASSES[b[1] % N_EXC](b[1])
+                self.raised.append((e, b[1]))
                 raise e
             if b[0] == "force":
                 x = args[b[1]]
@@ -346,7 +455,9 @@ def make_fn(interp, nd):
     sig = ", ".join(PNAMES[p["name"]] + ("" if ANNS[p["ann"]][3] is None else ": " + ANNS[p["ann"]][3]) for p in params)
     src = f"def comp_{nd['id']}({sig}):\n    return _call({nd['id']}, _body, [{', '.join(PNAMES[p['name']] for p in params)}])\n"
     import typing
-    ns = {"Lazy": Lazy, "_T": typing.TypeVar("_T"), "_call": interp.call, "_body": nd["body"]}
+    import numpy as np
+    ns = {"Lazy": Lazy, "_T": typing.TypeVar("_T"), "_call": interp.call, "_body": nd["body"],
+          "_FV": np.ndarray[typing.Any, np.dtype[np.float64]], "_IV": np.ndarray[typing.Any, np.dtype[np.int64]]}
     exec(src, ns)
     return ns[f"comp_{nd['id']}"]
 
@@ -363,8 +474,12 @@ def logged_fallback(interp, cid):
 
 
 def classify(e, interp):
+    # an exception a component raised is recognised by identity, whatever its class
+    for r, k in interp.raised:
+        if e is r:
+            return ["EComp", k, r is interp.raised[-1][0]]
     if isinstance(e, CompError):
-        return ["EComp", e.k, bool(interp.raised) and e is interp.raised[-1]]
+        return ["EComp", e.k, False]
     if isinstance(e, PipelineError):
         return ["ECycle"] if "cycle" in str(e) else ["EMissing"]
     if isinstance(e, KeyError):
@@ -380,7 +495,7 @@ def nname(i):
     return f"n{i}"
 
 
-def build_pipeline(case, interp):
+def make_builder(case, interp):
     b = PipelineBuilder()
     handles = {}
     later = []
@@ -414,24 +529,48 @@ def build_pipeline(case, interp):
         b.default_connection(PNAMES[pn], handles[t])
     for a, t in case["aliases"]:
         b.alias(nname(a), handles[t] if a % 2 == 0 else nname(t))
-    pipe = b.build()
-    for j, pn, t in case.get("inject", []):
-        pipe._edges[nname(j)][PNAMES[pn]] = nname(t)      # bypasses the builder: exercises the runner's own cycle check
-    return pipe
+    return b, handles
 
 
 def run_impl(case):
     _setup()
     interp = Interp()
+    b, handles = make_builder(case, interp)
+    out = run_stage(case, interp, b, case["runs"], case.get("inject", []))
+    more = []
+    for stg in case.get("stages", []):
+        for e in stg["edits"]:
+            if e[0] == "default":
+                b.default_connection(PNAMES[e[1]], handles[e[2]])
+            elif e[0] == "connect":
+                b.connect(handles[e[1]], **{PNAMES[e[2]]: handles[e[3]]})
+            else:
+                b.alias(nname(e[1]), handles[e[2]])
+        try:
+            if stg["pre"] == "hash":
+                b.config_hash()
+            elif stg["pre"] == "config":
+                b.build_config()
+        except PipelineError:
+            pass
+        more.append(run_stage(case, interp, b, stg["runs"], []))
+    if more:
+        out["more"] = more
+    return out
+
+
+def run_stage(case, interp, b, runs, inject):
     try:
-        pipe = build_pipeline(case, interp)
+        pipe = b.build()
     except PipelineError as e:
         if "cycles" in str(e):
             return {"built": False, "runs": []}
         raise
+    for j, pn, t in inject:
+        pipe._edges[nname(j)][PNAMES[pn]] = nname(t)      # bypasses the builder: exercises the runner's own cycle check
     ids = {nname(nd["id"]): nd["id"] for nd in case["nodes"]}
     obs = []
-    for run in case["runs"]:
+    for run in runs:
         kw = {nname(i): pyval(v) for i, v in run["inputs"]}
         req = [nname(i) for i in run["req"]]
         o = {}
@@ -467,7 +606,8 @@ def run_impl(case):
 
 
 def c_val(v):
-    return f"(VInt {cz(v[1])})" if v[0] == "i" else f"(VStr {cz(v[1])})"
+    ctor = {"i": "VInt", "s": "VStr", "f": "VArrF", "a": "VArrI"}[v[0]]
+    return f"({ctor} {cz(v[1])})"
 
 
 def c_atom(a):
@@ -481,6 +621,8 @@ def c_bexp(e):
         return f"(BStr {cz(e[1])})"
     if e[0] == "atom":
         return f"(BAtom {c_atom(e[1])})"
+    if e[0] in ("arrf", "arri"):
+        return f"({'BArrF' if e[0] == 'arrf' else 'BArrI'} {cz(e[1])})"
     return f"(BLin {cz(e[1])} {clist(e[2], lambda t: f'({cz(t[0])}, {c_atom(t[1])})')})"
 
 
@@ -495,9 +637,9 @@ def c_bprog(b):
 
 
 def c_bparam(p):
-    lz, ty, nu, _ = ANNS[p["ann"]]
+    lz, ty, nu, _, kind = ANNS[p["ann"]]
     return (f"{{| bp_name := {cnat(p['name'])}; bp_conn := {copt(p['conn'], cnat)}; bp_lazy := {cbool(lz)}; "
-            f"bp_typed := {cbool(ty)}; bp_nullable := {cbool(nu)} |}}")
+            f"bp_typed := {cbool(ty)}; bp_nullable := {cbool(nu)}; bp_ty := {kind} |}}")
 
 
 def c_node(nd, inject):
@@ -530,20 +672,49 @@ def c_builder(case, inject):
             f"b_aliases := {clist(case['aliases'], lambda a: f'({cnat(a[0])}, {cnat(a[1])})')} |}}")
 
 
-def coq_term(case, obs):
-    runs = []
-    for run, o in zip(case["runs"], obs["runs"]):
+def c_runs(runs, obs_runs):
+    out = []
+    for run, o in zip(runs, obs_runs):
         st = "None" if o["state"] is None else "(Some " + clist(o["state"], lambda kv: f"({cnat(kv[0])}, {copt(kv[1], c_val)})") + ")"
-        runs.append(
+        out.append(
             f"{{| o_inputs := {clist(run['inputs'], lambda iv: f'({cnat(iv[0])}, {c_val(iv[1])})')}; o_req := {clist(run['req'], cnat)}; "
             f"o_outcome := {c_outcome(o['outcome'])}; o_log := {clist(o['log'], cnat)}; o_state := {st} |}}")
+    return clist(out, str)
+
+
+def c_edit(e):
+    if e[0] == "default":
+        return f"(EDefault {cnat(e[1])} {cnat(e[2])})"
+    if e[0] == "connect":
+        return f"(EConnect {cnat(e[1])} {cnat(e[2])} {cnat(e[3])})"
+    return f"(EAlias {cnat(e[1])} {cnat(e[2])})"
+
+
+def coq_term(case, obs):
+    runs = c_runs(case["runs"], obs["runs"])
     inject = case.get("inject", [])
     if inject:
         # the pipeline was built from the un-injected wiring; the runs use the injected one
         return (f"(match build {c_builder(case, [])} with None => negb {cbool(obs['built'])} | Some _ => {cbool(obs['built'])} && "
                 f"(let b := {c_builder(case, inject)} in let g := resolve b in "
-                f"forallb (agree_run false (2 + length g) g (b_aliases b)) {clist(runs, str)}) end)")
-    return f"agree_case {c_builder(case, [])} {cbool(obs['built'])} {clist(runs, str)}"
+                f"forallb (agree_run false (2 + length g) g (b_aliases b)) {runs}) end)")
+    if not case.get("stages"):
+        return f"agree_case {c_builder(case, [])} {cbool(obs['built'])} {runs}"
+    # a builder history: the model applies the edits to the builder state and rebuilds
+    stages = [f"([], {cbool(obs['built'])}, {runs})"]
+    for stg, o in zip(case["stages"], obs["more"]):
+        stages.append(f"({clist(stg['edits'], c_edit)}, {cbool(o['built'])}, {c_runs(stg['runs'], o['runs'])})")
+    return f"agree_history {c_builder(case, [])} {clist(stages, str)}"
+
+
+def stage_views(case, obs):
+    """(builder state at that build as a case, observation of that build) for every build of the history."""
+    views = [(case, obs)]
+    state = case
+    for stg, o in zip(case.get("stages", []), obs.get("more", [])):
+        state = apply_edits(state, stg["edits"])
+        views.append(({**state, "runs": stg["runs"], "inject": [], "stages": []}, o))
+    return views
 
 
 # ---------------------------------------------------------------------------------------------
@@ -572,12 +743,12 @@ def _wiring(case, with_inject=True):
     w = {}
     for nd in case["nodes"]:
         if nd["kind"] == "comp":
-            w[nd["id"]] = [(p["conn"] if p["conn"] is not None else dflt.get(p["name"]), *ANNS[p["ann"]][:3], p["name"]) for p in nd["params"]]
+            w[nd["id"]] = [(p["conn"] if p["conn"] is not None else dflt.get(p["name"]), *ANNS[p["ann"]][:3], p["name"], ANNS[p["ann"]][4]) for p in nd["params"]]
         elif nd["kind"] == "fallback":
-            w[nd["id"]] = [(nd["primary"], False, False, True, 0), (nd["fallback"], True, False, True, 1)]
+            w[nd["id"]] = [(nd["primary"], False, False, True, 0, "TInt"), (nd["fallback"], True, False, True, 1, "TInt")]
     if with_inject:
         for j, pn, t in case.get("inject", []):
-            w[j] = [((t if name == pn else s), lz, ty, nu, name) for s, lz, ty, nu, name in w[j]]
+            w[j] = [((t if name == pn else s), lz, ty, nu, name, kd) for s, lz, ty, nu, name, kd in w[j]]
     return w
 
 
@@ -605,8 +776,12 @@ def reference(case, run):
     alias = dict((a, t) for a, t in case["aliases"])
     executed = []
 
-    def ok(v, typed, nullable):
-        return (not typed) or (nullable if v is None else isinstance(v, int))
+    def ok(v, typed, nullable, kind="TInt"):
+        if not typed:
+            return True
+        if v is None:
+            return nullable
+        return jval(v)[0] == KIND_TAG[kind]      # int / float64 array / int64 array
 
     def ev(n, required, stack):
         if n in stack:
@@ -624,15 +799,15 @@ def reference(case, run):
                 raise IllTyped
             return v
         args = []
-        for s, lz, ty, nu, _ in w[n]:
+        for s, lz, ty, nu, _, kd in w[n]:
             strict = ty and not nu
             if s is None:
                 v = None
             elif lz:
-                def thunk(s=s, strict=strict, ty=ty, nu=nu):
+                def thunk(s=s, strict=strict, ty=ty, nu=nu, kd=kd):
                     v = ev(s, required and strict, stack | {n})
                     v = None if v is SKIP else v
-                    if not ok(v, ty, nu):
+                    if not ok(v, ty, nu, kd):
                         raise IllTyped
                     return v
                 args.append(thunk)
@@ -647,7 +822,7 @@ def reference(case, run):
                 if required:
                     raise Missing
                 return SKIP
-            if not ok(v, ty, nu):
+            if not ok(v, ty, nu, kd):
                 raise IllTyped
             args.append(v)
         executed.append(n)
@@ -667,6 +842,8 @@ def reference(case, run):
                     return f"s{e[1]}"
                 if e[0] == "atom":
                     return atom(e[1])
+                if e[0] in ("arrf", "arri"):
+                    return pyval(["f" if e[0] == "arrf" else "a", e[1]])
                 return e[1] + sum(c * num(atom(a)) for c, a in e[2])
             if b[0] == "raise":
                 raise Boom(b[1])
@@ -696,6 +873,18 @@ def reference(case, run):
 
 
 def oracle(case, obs):
+    v = []
+    for k, (c, o) in enumerate(stage_views(case, obs)):
+        v += [(key, (f"build {k}: " if k else "") + w) for key, w in oracle_one(c, o)]
+    seen, out = set(), []
+    for key, w in v:
+        if key not in seen:
+            seen.add(key)
+            out.append((key, w))
+    return out
+
+
+def oracle_one(case, obs):
     v = []
     cyc = _has_cycle(_wiring(case, with_inject=False))
     if obs["built"] == cyc:
@@ -737,6 +926,10 @@ def oracle(case, obs):
 
 
 def nontrivial(case, obs):
+    return any(nontrivial_one(c, o) for c, o in stage_views(case, obs))
+
+
+def nontrivial_one(case, obs):
     if not obs["built"]:
         return False
     w = _wiring(case)
@@ -762,6 +955,30 @@ def nontrivial(case, obs):
 
 def counters(case, obs):
     yield "style=" + case["style"]
+    views = stage_views(case, obs)
+    yield f"builds-of-one-builder={len(views)}"
+    for stg in case.get("stages", []):
+        for e in stg["edits"]:
+            yield "edit=" + e[0]
+            if e[0] == "default" and any(d[0] == e[1] for d in case["defaults"]):
+                yield "edit=default-replaced-after-a-build"
+        if stg["pre"]:
+            yield "pre-build-call=" + stg["pre"]
+    for nd in case["nodes"]:
+        if nd["kind"] == "comp":
+            for p in nd["params"]:
+                if ANNS[p["ann"]][4] != "TInt":
+                    yield "has-array-typed-param"
+                    break
+    for c, o in views:
+        yield from counters_one(c, o)
+    for c, o in views:
+        for run, ro in zip(c["runs"], o["runs"]):
+            if ro["outcome"][0] == "raised" and ro["outcome"][1][0] == "EComp":
+                yield "raised-class=" + str(ro["outcome"][1][1] % N_EXC)
+
+
+def counters_one(case, obs):
     yield "built=" + str(obs["built"])
     nc = sum(1 for nd in case["nodes"] if nd["kind"] in ("comp", "fallback"))
     yield f"components={min(nc, 10)}"
